@@ -34,6 +34,7 @@ class Close:
     negated: bool
     form: str
     atol_expr: str = ""
+    magnitude: Optional[ast.expr] = None
 
     def describe(self) -> str:
         return f"{self.form}: atol={self.atol_expr or self.atol}, rtol={self.rtol}"
@@ -145,7 +146,7 @@ def parse(repo: Repo, mod: Module, test: ast.expr) -> Optional[Close]:
         lhs = rhs = None
         if isinstance(arg, ast.BinOp) and isinstance(arg.op, ast.Sub):
             lhs, rhs = arg.left, arg.right
-        return Close(test, lhs, rhs, val, -1.0 if relative else 0.0, strict, negated, "norm/abs of a difference against a tolerance", ast.unparse(tol))
+        return Close(test, lhs, rhs, val, -1.0 if relative else 0.0, strict, negated, "norm/abs of a difference against a tolerance", ast.unparse(tol), mag)
     return None
 
 
@@ -210,7 +211,7 @@ def check_functions(r, repo: Repo, qualnames, min_tests=1, scan_modules=(), allo
         tests = tests_in(repo, fn.module, fn.node)
         r.require(len(tests) >= min_tests, f"{fn.qualname}: no closeness test recognised (idioms: norm(a-b) < T, abs(x) > T, isclose/allclose)")
         for i, c in enumerate(tests):
-            _judge(r, fn, c, tol, i, fn.qualname in allow_other_atol)
+            _judge(r, fn, c, tol, i, fn.qualname in allow_other_atol, repo, True)
     for m in scan_modules:
         mod = repo.module(m)
         for fn in repo.all_functions():
@@ -220,8 +221,23 @@ def check_functions(r, repo: Repo, qualnames, min_tests=1, scan_modules=(), allo
                 _judge(r, fn, c, tol, i, True)
 
 
-def _judge(r, fn, c: Close, tol: float, i: int, any_atol: bool):
+def _judge(r, fn, c: Close, tol: float, i: int, any_atol: bool, repo: Optional[Repo] = None, need_nonneg: bool = False):
     key = f"close#{i}"
+    if need_nonneg and c.magnitude is not None and repo is not None:
+        from .rules.c20 import SignEnv
+
+        core = c.magnitude
+        while isinstance(core, ast.BinOp) and isinstance(core.op, ast.Div):
+            core = core.left  # |x| / length: a length scale in the denominator does not make the test one-sided
+        if not SignEnv(repo, fn).nonneg(core):
+            r.bad(
+                fn,
+                f"'{ast.unparse(c.node)[:90]}' compares the SIGNED quantity '{ast.unparse(c.magnitude)[:50]}' with the tolerance (no norm / abs): differences of the other sign, however large, "
+                "pass as 'coincident'",
+                c.node,
+                key=key,
+            )
+            return
     if c.rtol != 0 and fn.qualname in RELATIVE_ON_PURPOSE:
         r.ok(fn, f"relative on purpose: {RELATIVE_ON_PURPOSE[fn.qualname]}", key=key)
         return
